@@ -24,6 +24,7 @@ import sys
 VERIF = os.path.dirname(os.path.dirname(os.path.abspath(__file__)))
 sys.path.insert(0, VERIF)
 REPO = '/repo'
+GENERATION = int(os.environ.get('MUTSWEEP_GENERATION', '0'))   # 0: all operators
 
 CMP = {ast.Gt: '>=', ast.GtE: '>', ast.Lt: '<=', ast.LtE: '<', ast.Eq: '!=', ast.NotEq: '==',
        ast.Is: 'is not', ast.IsNot: 'is', ast.In: 'not in', ast.NotIn: 'in'}
@@ -132,6 +133,53 @@ def mutants_of(rel, text):
                 node.type.id == 'BaseException':
             start, end = span(node.type)
             replace('handler:BaseException->Exception', node.lineno, start, end, 'Exception')
+    # second generation of operators (statements inside functions only)
+    in_function = set()
+    for node in ast.walk(tree):
+        if isinstance(node, (ast.FunctionDef, ast.AsyncFunctionDef)):
+            for sub in ast.walk(node):
+                in_function.add(id(sub))
+    for node in ast.walk(tree):
+        if id(node) not in in_function or id(node) in in_annotation:
+            continue
+        if isinstance(node, (ast.Assign, ast.AugAssign)):
+            start, end = span(node)
+            replace('del-assign', node.lineno, start, end, 'pass')
+        elif isinstance(node, ast.Call) and isinstance(node.func, ast.Attribute) and \
+                node.func.attr == 'copy' and not node.args and not node.keywords:
+            start, end = span(node)
+            inner = span(node.func.value)
+            replace('copy-removed', node.lineno, start, end, text[inner[0]:inner[1]])
+        elif isinstance(node, ast.Call) and isinstance(node.func, ast.Name) and \
+                node.func.id in ('list', 'tuple') and len(node.args) == 1 and \
+                not node.keywords and not isinstance(node.args[0], ast.GeneratorExp):
+            start, end = span(node)
+            inner = span(node.args[0])
+            replace('copy-removed', node.lineno, start, end, text[inner[0]:inner[1]])
+        elif isinstance(node, ast.Subscript) and isinstance(node.slice, ast.Constant) and \
+                node.slice.value == 0 and isinstance(node.ctx, ast.Load):
+            start, end = span(node.slice)
+            replace('index:0->-1', node.lineno, start, end, '-1')
+        elif isinstance(node, ast.Subscript) and isinstance(node.slice, ast.UnaryOp) and \
+                isinstance(node.slice.op, ast.USub) and isinstance(
+                    node.slice.operand, ast.Constant) and node.slice.operand.value == 1:
+            start, end = span(node.slice)
+            replace('index:-1->0', node.lineno, start, end, '0')
+        elif isinstance(node, ast.Return) and node.value is not None and not isinstance(
+                node.value, ast.Constant):
+            start, end = span(node.value)
+            replace('return-none', node.lineno, start, end, 'None')
+        elif isinstance(node, (ast.Break, ast.Continue)):
+            start, end = span(node)
+            replace('del-%s' % type(node).__name__.lower(), node.lineno, start, end, 'pass')
+    if GENERATION == 2:
+        found = [f for f in found if f[0].split(':')[0] in (
+            'del-assign', 'copy-removed', 'index', 'return-none', 'del-break',
+            'del-continue')]
+    elif GENERATION == 1:
+        found = [f for f in found if f[0].split(':')[0] not in (
+            'del-assign', 'copy-removed', 'index', 'return-none', 'del-break',
+            'del-continue')]
     result = []
     for op, lineno, new_text in found:
         if new_text == text:
